@@ -11,6 +11,8 @@ import NitroVerif.Spec.RefTypes
 import NitroVerif.Lemmas.TsSem
 import NitroVerif.Lemmas.TsSemSound
 import NitroVerif.Lemmas.JsDoc
+import NitroVerif.Lemmas.DeclsResolve
+import NitroVerif.Lemmas.SchemaDeclsResolve
 namespace NitroVerif.Props.C10
 open NitroVerif.ResolverDecls
 open NitroVerif.Gql NitroVerif.Ts NitroVerif.DeclCfg NitroVerif.SchemaDecls NitroVerif.RefTypes
@@ -302,6 +304,191 @@ theorem localName_injective (bagIds : List String) (a b : Name)
   · exfalso; rw [h] at ha; simp [hasTmpPrefix, String.toList_append] at ha
   · exact h
 
+/-! ### closed form on the generated file: identifiers of scalar texts are global -/
+
+theorem names_exportType (sn ln : String) (ty : Ty) (n : String)
+    (h : n ∈ Stmt.typeNamesList (exportType sn ln ty)) : n = ln := by
+  unfold exportType at h
+  split at h <;> simpa [Stmt.typeNamesList, Stmt.typeNames] using h
+
+theorem names_exportRepresentative (sn ln : String) (t : Target) (n : String)
+    (h : n ∈ Stmt.typeNamesList (exportRepresentative sn ln t)) : n = ln := by
+  unfold exportRepresentative at h
+  split at h <;> simpa [Stmt.typeNamesList, Stmt.typeNames] using h
+
+theorem names_descStmts (d : Option String) : Stmt.typeNamesList (descStmts d) = [] := by
+  cases d <;> simp [descStmts, Stmt.typeNamesList, Stmt.typeNames]
+
+theorem names_printType (x : Ctx) (td : TypeDef) (ss : List Stmt) (h : printType x td = .ok ss) (n : String)
+    (hn : n ∈ Stmt.typeNamesList ss) : n = x.local td.name := by
+  unfold printType at h
+  split at h
+  · cases h
+  · cases h; simp [Stmt.typeNamesList] at hn
+  · cases h
+    rw [typeNamesList_append, names_descStmts] at hn
+    exact names_exportType _ _ _ _ (by simpa using hn)
+
+theorem names_namespaceBody (x : Ctx) : ∀ (tds : List TypeDef) (ss : List Stmt), namespaceBody x tds = .ok ss →
+    ∀ n, n ∈ Stmt.typeNamesList ss → ∃ td ∈ tds, n = x.local td.name := by
+  intro tds
+  induction tds with
+  | nil => intro ss h n hn; simp [namespaceBody] at h; subst h; simp [Stmt.typeNamesList] at hn
+  | cons td rest ih =>
+    intro ss h n hn
+    simp only [namespaceBody] at h
+    split at h
+    · cases h
+    · rename_i s1 h1
+      split at h
+      · cases h
+      · rename_i r hr
+        cases h
+        rw [typeNamesList_append, List.mem_append] at hn
+        rcases hn with hn | hn
+        · exact ⟨td, List.mem_cons_self, names_printType x td s1 h1 n hn⟩
+        · obtain ⟨td', htd', e⟩ := ih r hr n hn
+          exact ⟨td', List.mem_cons_of_mem _ htd', e⟩
+
+theorem names_namespaces (c : Cfg) (doc : TsDoc) : ∀ (ts : List Target) (ss : List Stmt),
+    namespaces c doc ts = .ok ss → ∀ n, n ∈ Stmt.typeNamesList ss →
+      ∃ td ∈ typeDefsOf doc, n = localName (bag (scalarTypes c doc)) td.name := by
+  intro ts
+  induction ts with
+  | nil => intro ss h n hn; simp [namespaces] at h; subst h; simp [Stmt.typeNamesList] at hn
+  | cons t rest ih =>
+    intro ss h n hn
+    simp only [namespaces] at h
+    split at h
+    · cases h
+    · rename_i body hb
+      split at h
+      · cases h
+      · rename_i r hr
+        cases h
+        simp only [Stmt.typeNamesList, Stmt.typeNames, List.mem_append] at hn
+        rcases hn with hn | hn
+        · exact names_namespaceBody _ _ _ hb n hn
+        · exact ih r hr n hn
+
+/-- Every `type` statement of the generated schema declaration file binds one of the three prelude names or the
+    LOCAL name of a schema type. -/
+theorem schemaFile_names (c : Cfg) (doc : TsDoc) (F : File) (hF : schemaFile c doc = .ok F) (n : String)
+    (hn : n ∈ Stmt.typeNamesList F) :
+    n ∈ ["__nitrogql_schema", "__Beautify", "__SelectionSet"] ∨
+      ∃ td ∈ typeDefsOf doc, n = localName (bag (scalarTypes c doc)) td.name := by
+  unfold schemaFile at hF
+  split at hF
+  · cases hF
+  · rename_i ns hns
+    cases hF
+    simp only [typeNamesList_append, List.mem_append] at hn
+    rcases hn with (hn | hn) | hn
+    · left; simpa [prelude, Stmt.typeNamesList, Stmt.typeNames] using hn
+    · right; exact names_namespaces c doc _ ns hns n hn
+    · right
+      obtain ⟨td, htd, h⟩ := typeNamesList_flatMap _ _ n hn
+      refine ⟨td, htd, ?_⟩
+      unfold representative at h
+      simp only [typeNamesList_append, List.mem_append] at h
+      rcases h with h | h
+      · exact names_exportRepresentative _ _ _ _ h
+      · split at h <;> simp [Stmt.typeNamesList, Stmt.typeNames] at h
+
+/-- CLOSED FORM, first half of rename soundness, on the generated file itself: in the schema declaration file the
+    model emits for ANY configuration and document, an identifier of a configured scalar TypeScript text is bound by
+    NO declaration — from every namespace it resolves to nothing, i.e. it keeps its global TypeScript meaning and
+    (in the semantics) denotes exactly its own atom. Side conditions: no scalar-text identifier starts with `__tmp_`
+    (otherwise false: `C10_rename_counterexample`, open finding) and it is not one of the three prelude helper names. -/
+theorem C10_scalar_idents_global (c : Cfg) (doc : TsDoc) (F : File) (hF : schemaFile c doc = .ok F)
+    (hbag : ∀ i ∈ bag (scalarTypes c doc), hasTmpPrefix i = false)
+    (id : String) (hid : id ∈ bag (scalarTypes c doc))
+    (hpre : id ∉ ["__nitrogql_schema", "__Beautify", "__SelectionSet"]) (scope : Scope) (v : J) :
+    (Decls.ofFile F).resolveRef scope id = none ∧
+    (Mem (Env.ofFile F) v (globalise (Decls.ofFile F) scope [] (.ref id)) ↔ v = .atom id) := by
+  have hnone : (Decls.ofFile F).resolveRef scope id = none := by
+    apply resolveRef_none_of_unbound
+    intro hn
+    rcases schemaFile_names c doc F hF id hn with h | ⟨td, _, h⟩
+    · exact hpre h
+    · exact C10_rename_sound_partial _ hbag td.name (h ▸ hid)
+  refine ⟨hnone, ?_⟩
+  simp only [globalise, List.contains_nil, Bool.false_eq_true, if_false, hnone]
+  exact mem_unresolved_ref_iff
+
+/-- CLOSED FORM, second half of rename soundness, on the generated file itself: in the schema declaration file the
+    model emits, inside the namespace of target `t` the LOCAL name of a schema type `td` that is printed for that
+    target resolves to exactly the alias emitted for `td` in that namespace (its body is `td`'s body for `t`), and the
+    generated reference `Ctx.leaf td.name` becomes the absolute reference to it. Hypotheses (guaranteed by the schema
+    check): type names are distinct and none starts with `__tmp_`. -/
+theorem C10_type_refs_resolve (c : Cfg) (doc : TsDoc) (F : File) (hF : schemaFile c doc = .ok F)
+    (t : Target) (td : TypeDef) (ty : Ty) (hm : td ∈ typeDefsOf doc)
+    (hb : body (Ctx.new c doc t) td = .ok (some ty))
+    (hdistinct : ∀ a ∈ typeDefsOf doc, a.name = td.name → a = td)
+    (hnames : ∀ a ∈ typeDefsOf doc, hasTmpPrefix a.name = false) :
+    (Decls.ofFile F).findLocal [t.name] ((Ctx.new c doc t).local td.name)
+      = some ⟨[t.name], (Ctx.new c doc t).local td.name, td.name == (Ctx.new c doc t).local td.name, [], ty⟩ ∧
+    (Decls.ofFile F).resolveRef [t.name] ((Ctx.new c doc t).local td.name)
+      = some ⟨[t.name], (Ctx.new c doc t).local td.name, td.name == (Ctx.new c doc t).local td.name, [], ty⟩ ∧
+    globalise (Decls.ofFile F) [t.name] [] ((Ctx.new c doc t).leaf td.name)
+      = Ty.abs [t.name] ((Ctx.new c doc t).local td.name) := by
+  have hinj : ∀ a ∈ typeDefsOf doc,
+      (Ctx.new c doc t).local a.name = (Ctx.new c doc t).local td.name → a = td := by
+    intro a ha e
+    exact hdistinct a ha (localName_injective _ _ _ (hnames a ha) (hnames td hm) e)
+  have hfl : (Decls.ofFile F).findLocal [t.name] ((Ctx.new c doc t).local td.name)
+      = some ⟨[t.name], (Ctx.new c doc t).local td.name, td.name == (Ctx.new c doc t).local td.name, [], ty⟩ := by
+    unfold schemaFile at hF
+    split at hF
+    · cases hF
+    · rename_i ns hns
+      cases hF
+      have hfind := find_namespaces c doc t td ty hb hm hinj Target.all ns hns (by cases t <;> simp [Target.all])
+      simp only [Decls.findLocal, ofFile_types, declsList_append, List.find?_append]
+      have hpre : (Stmt.declsList [] (prelude doc)).find?
+          (fun x => x.scope == [t.name] && x.name == (Ctx.new c doc t).local td.name) = none := by
+        simp [prelude, Stmt.declsList, Stmt.decls]
+      have hns' : (Stmt.declsList [] ns).find?
+          (fun x => x.scope == [t.name] && x.name == (Ctx.new c doc t).local td.name)
+          = some ⟨[t.name], (Ctx.new c doc t).local td.name, td.name == (Ctx.new c doc t).local td.name, [], ty⟩ := hfind
+      rw [hpre, hns']
+      rfl
+  have hres : (Decls.ofFile F).resolveRef [t.name] ((Ctx.new c doc t).local td.name)
+      = some ⟨[t.name], (Ctx.new c doc t).local td.name, td.name == (Ctx.new c doc t).local td.name, [], ty⟩ := by
+    simp [Decls.resolveRef, Decls.resolveRefAux, hfl]
+  refine ⟨hfl, hres, ?_⟩
+  simp only [Ctx.leaf, globalise, List.contains_nil, Bool.false_eq_true, if_false, hres, Ty.abs]
+
+/-- END-TO-END for ENUMS on the generated file: inside the namespace of any target, the generated reference to an enum
+    type of the document denotes exactly the string literals of its values (name resolution through the namespace,
+    local renaming and the alias body included). -/
+theorem C10_alias_exact_enum_closed (c : Cfg) (doc : TsDoc) (F : File) (hF : schemaFile c doc = .ok F)
+    (t : Target) (td : TypeDef) (hm : td ∈ typeDefsOf doc) (hk : td.kind = .enum)
+    (hdistinct : ∀ a ∈ typeDefsOf doc, a.name = td.name → a = td)
+    (hnames : ∀ a ∈ typeDefsOf doc, hasTmpPrefix a.name = false) (v : J) :
+    Mem (Env.ofFile F) v (globalise (Decls.ofFile F) [t.name] [] ((Ctx.new c doc t).leaf td.name))
+      ↔ ∃ x ∈ td.values, v = .str x.name := by
+  have hb : body (Ctx.new c doc t) td = .ok (some (enumBody td)) := by simp [body, hk]
+  obtain ⟨hfl, _, hg⟩ := C10_type_refs_resolve c doc F hF t td _ hm hb hdistinct hnames
+  have hglob : globalise (Decls.ofFile F) [t.name] [] (enumBody td) = enumBody td := by
+    have hl : ∀ l : List EnumValueDef, globaliseList (Decls.ofFile F) [t.name] []
+        (l.map fun v => Ty.strLit v.name) = l.map fun v => Ty.strLit v.name := by
+      intro l; induction l with
+      | nil => simp [globaliseList]
+      | cons a r ih => simp [globaliseList, globalise, ih]
+    have hu : ∀ ts : List Ty, globalise (Decls.ofFile F) [t.name] [] (tsUnion ts)
+        = tsUnion (globaliseList (Decls.ofFile F) [t.name] [] ts) := by
+      intro ts
+      match ts with
+      | [] => simp [tsUnion, globalise, globaliseList]
+      | [a] => simp [tsUnion, globaliseList]
+      | a :: b :: r => simp [tsUnion, globalise, globaliseList]
+    rw [enumBody, hu, hl]
+  have hbody : (Env.ofFile F).decls.body? ([t.name] ++ [(Ctx.new c doc t).local td.name]) = some ([], enumBody td) := by
+    simp [Decls.body?, Env.ofFile, hfl, hglob]
+  rw [hg, Ty.abs, mem_alias_iff hbody]
+  exact C10_alias_exact_enum td v
+
 /-! ### the resolvers declaration -/
 
 def rootFields : Ty → List Field
@@ -423,14 +610,18 @@ theorem string_literal_sound (s : String) (h : isGraphQLName s = true) :
 
 /-! ### OPEN — carried by K/O only
 
-* `C10_alias_exact` in closed form: `SchemaValid S → ∀ t T, Mem (Env.ofFile (schemaFile c S)) v (globalise … [] (qref [t.name, T])) ↔ Ref c S t T v`.
-  Proved above: the body of every alias is exact for every interpretation of its references (`C10_alias_exact_*`),
-  local names avoid the scalar-text identifiers (`C10_rename_sound_partial`) and are injective. Missing link:
-  that `Decls.resolveRef / resolveQ` on `Decls.ofFile (schemaFile c S)` map the reference `Ctx.leaf n` inside
-  namespace `t` to the declaration emitted for `n` in that namespace, and every identifier of a scalar text to no
-  declaration (name resolution through `find?` over the generated statement list), and the induction on values that
-  turns the per-body statements into the recursive `Ref`. The O stream evaluates exactly this closed form on the
-  REAL files (every alias × every value of the abstract domain).
+* `C10_alias_exact` in closed form for objects / input objects / interfaces / unions / scalars:
+  `SchemaValid S → ∀ t T, Mem (Env.ofFile (schemaFile c S)) v (reference to T in namespace t) ↔ Ref c S t T v`.
+  PROVED now, on the generated file itself: identifiers of scalar texts resolve to nothing from every namespace
+  (`C10_scalar_idents_global`); the local name of every printed type resolves, inside its namespace, to exactly the
+  alias emitted for it and `Ctx.leaf` becomes the absolute reference to it (`C10_type_refs_resolve`); the end-to-end
+  closed form for ENUMS (`C10_alias_exact_enum_closed`); the body of every alias is exact for every interpretation of
+  its references (`C10_alias_exact_*`). STILL MISSING for the other kinds: (a) that `globalise` commutes with the body
+  constructions (`tsOf`, `objectBodyL`, …) so that the stored body is the body over absolute leaves; (b) the induction
+  on values that turns the per-body statements into the recursive `Ref`; (c) for scalars, that `globalise` leaves an
+  arbitrary parsed text unchanged when all its identifiers are unbound; (d) the qualified route `ns.T` / top-level
+  representative through `resolveQ` / `export type { a as b }`. The O stream evaluates exactly these closed forms on
+  the REAL files (every alias × every value of the abstract domain).
 * completeness of `memG` for sufficient fuel (`Mem e v t → ∃ n, memG e n v t = true`); soundness is proved.
 * `Ref_t` for scalars is the configured text read in the empty environment; that the namespace scope adds nothing
   to it is the second half of rename soundness (same missing link).
